@@ -14,7 +14,8 @@ zero, `as usize` saturating with `NaN -> 0`).  On the grid `k/4` (`|k| ≤ 64`) 
 fractions, extents `< 2^20`, the `f64` evaluation of the code coincides with this arithmetic (products
 `< 2^53`, quotients either exactly representable or at distance `≥ 1/640` from a half-integer).
 `Image::render` crops the image to `surface extent * pixels_per_cell` pixels with saturating products
-(repaired); the crop only selects pixels of the image and is not represented.
+(repaired) before it writes it as one cell at the origin of the surface: `imageExtent` is the number of
+cells that cell covers.
 
 The layout tree is the inductive tree `LT` (the arena of `TreeStore` with first-child / next-sibling
 links is the Rust representation of exactly this).  `LT.data` mirrors `Layout::data` as far as the
@@ -322,6 +323,16 @@ def sizeCells (ppc : Size) (ph pw : Nat) : Size :=
   else
     let roundUp := fun (a b : Nat) => if a % b = 0 then a / b else a / b + 1
     ⟨roundUp ph ppc.h, roundUp pw ppc.w⟩
+
+/-- `a.saturating_mul(b)` -/
+def satMul (a b : Nat) : Nat := if a * b < U then a * b else U - 1
+
+/-- `Image::render`: the cells covered by the image cell it writes at the origin of the surface it holds
+(`sh × sw` cells, after `layout.apply_to(surf)`): `Cell::size` of
+`self.crop(..sh.saturating_mul(ppc.height), ..sw.saturating_mul(ppc.width))` for an image of `ph × pw`
+pixels (`crop` clamps the ranges to the image; an empty range gives an empty image) -/
+def imageExtent (ppc : Size) (ph pw sh sw : Nat) : Size :=
+  sizeCells ppc (Nat.min ph (satMul sh ppc.h)) (Nat.min pw (satMul sw ppc.w))
 
 /-! ## views -/
 
@@ -809,6 +820,8 @@ def showPath (l : List (Pos × Size)) : String :=
 * `layout <glyphs 0|1> <ppc h> <ppc w> <min h> <min w> <max h> <max w> <tree…>` → layout tree or `panic`
 * `render <glyphs> <ppch> <ppcw> <minh> <minw> <maxh> <maxw> <shape: start,width,height,rs,cs> <tree…>`
   → the shapes handed to the probe leaves, in call order (`-` if none), `panic`, `invalid-layout`
+* `imgext <ppc h> <ppc w> <image h px> <image w px> <surface h> <surface w>` → cells covered by the image cell
+  `Image::render` writes into a surface of that size
 * `bar <major> <n> <visible> <offset>` → the first `min major n` cells of a scroll bar of layout extent
   `major`: `1` thumb, `0` track (`ScrollBar::render`, repaired: `index >= offset.saturating_add(size)`)
 * `path <glyphs> <ppch> <ppcw> <minh> <minw> <maxh> <maxw> <row> <col> <tree…>` → `find_path` chain -/
@@ -838,6 +851,12 @@ def handle : List String → String
       | .error e => showPanic e
       | .ok t => showPath (t.findPath ⟨row, col⟩)
     | _, _, _, _, _, _, _, _, _ => "bad-op"
+  | ["imgext", ppch, ppcw, ph, pw, sh, sw] =>
+    match ppch.toNat?, ppcw.toNat?, ph.toNat?, pw.toNat?, sh.toNat?, sw.toNat? with
+    | some a, some b, some ph, some pw, some sh, some sw =>
+      let e := imageExtent ⟨a, b⟩ ph pw sh sw
+      s!"{e.h} {e.w}"
+    | _, _, _, _, _, _ => "bad-op"
   | ["bar", major, n, vis, off] =>
     match major.toNat?, n.toNat?, parseF64 vis, parseF64 off with
     | some major, some n, some vis, some off =>
